@@ -61,6 +61,8 @@ type c02Op struct {
 	Amt     string `json:"amt,omitempty"`
 	ChainOK bool   `json:"chain_ok,omitempty"`
 	Prop    string `json:"prop,omitempty"`
+	Pend    string `json:"pend,omitempty"`
+	Dep     string `json:"dep,omitempty"`
 }
 type c02Step struct {
 	Op   c02Op   `json:"op"`
@@ -245,6 +247,8 @@ func (in *c02Intern) op(o c02Op) string {
 		return cApp("Dissociate", in.s(o.Staker))
 	case "Slash":
 		return cApp("Slash", in.s(o.Op), in.z(o.Prop))
+	case "NstBalance":
+		return cApp("NstBalance", in.s(o.Staker), in.s(o.Asset), in.z(o.Amt), in.z(o.Pend), in.z(o.Dep))
 	}
 	panic("c02: op kind " + o.Kind)
 }
@@ -375,6 +379,80 @@ func (r *c02Run) dissociate(chain uint64, staker []byte) string {
 	})
 	r.record(c02Op{Kind: "Dissociate", Staker: c02StakerID(chain, staker)}, res)
 	return res
+}
+
+// pendingTotal = sum of ActualCompletedAmount over the staker's pending undelegations of the asset (an input of the
+// model's NstBalance: undelegation records are outside the C02 model)
+func (r *c02Run) pendingTotal(sid, aid string) *big.Int {
+	sum := big.NewInt(0)
+	_ = (&r.u.env.App.DelegationKeeper).IterateUndelegationsByStakerAndAsset(r.ctx, sid, aid, false,
+		func(_ string, u *delegationtypes.UndelegationRecord) (bool, error) {
+			sum.Add(sum, u.ActualCompletedAmount.BigInt())
+			return false, nil
+		})
+	return sum
+}
+
+// nstBalance: DelegationKeeper.UpdateNSTBalance (the keeper does not check the asset kind, so the registered LST
+// assets can be driven through the native-restaking balance-change path)
+func (r *c02Run) nstBalance(staker, asset []byte, delta *big.Int) string {
+	sid, aid := assetstypes.GetStakerIDAndAssetID(c02Chain, staker, asset)
+	pend := r.pendingTotal(sid, aid)
+	dep := big.NewInt(0) // TotalDepositAmount: the staker-asset ledger is C01's; an input of the model's NstBalance
+	if info, err := r.u.env.App.AssetsKeeper.GetStakerSpecifiedAssetInfo(r.ctx, sid, aid); err == nil {
+		dep = info.TotalDepositAmount.BigInt()
+	}
+	res := c02Exec(r.ctx, func(cc sdk.Context) error {
+		return r.u.env.App.DelegationKeeper.UpdateNSTBalance(cc, sid, aid, sdkmath.NewIntFromBigInt(delta))
+	})
+	r.record(c02Op{Kind: "NstBalance", Staker: sid, Asset: aid, Amt: delta.String(), Pend: pend.String(), Dep: dep.String()}, res)
+	return res
+}
+
+// nstChange: a client-chain balance change for a staker, biased to the boundaries of the three buckets it is taken
+// from (withdrawable, pending undelegations, delegated shares in ALL of the staker's pools of that asset)
+func (r *c02Run) nstChange(st, as []byte) {
+	u, rng := r.u, r.u.rng
+	total := big.NewInt(0)
+	for i := 0; i < 10 && total.Sign() == 0; i++ { // prefer a staker that has delegations of the asset
+		total = big.NewInt(0)
+		for _, op := range u.ops {
+			total.Add(total, r.position(st, as, op))
+		}
+		if total.Sign() == 0 {
+			st = u.stakers[rng.Intn(len(u.stakers))]
+		}
+	}
+	sid, aid := assetstypes.GetStakerIDAndAssetID(c02Chain, st, as)
+	free := r.withdrawable(st, as)
+	pend := r.pendingTotal(sid, aid)
+	base := new(big.Int).Add(free, pend)
+	var d *big.Int
+	switch rng.Intn(10) {
+	case 0:
+		d = big.NewInt(int64(rng.Intn(1000)))
+	case 1:
+		d = big.NewInt(-1)
+	case 2:
+		d = new(big.Int).Neg(free)
+	case 3:
+		d = new(big.Int).Neg(kernAdd(base, int64(rng.Intn(2))))
+	case 4:
+		d = new(big.Int).Neg(new(big.Int).Add(base, new(big.Int).Div(total, big.NewInt(2))))
+	case 5, 6:
+		d = new(big.Int).Neg(new(big.Int).Add(base, total)) // everything: proportion exactly 1
+	case 7:
+		d = new(big.Int).Neg(kernAdd(new(big.Int).Add(base, total), int64(rng.Intn(3)-1)))
+	case 8:
+		d = new(big.Int).Neg(kernAdd(new(big.Int).Add(base, kernMul(total, big.NewInt(2))), 5)) // capped at 1
+	default:
+		if total.Sign() > 0 {
+			d = new(big.Int).Neg(new(big.Int).Add(base, kernAdd(new(big.Int).Rand(rng, total), 1)))
+		} else {
+			d = big.NewInt(-int64(1 + rng.Intn(100)))
+		}
+	}
+	r.nstBalance(st, as, d)
 }
 
 var c02One = sdkmath.LegacyOneDec()
@@ -548,6 +626,10 @@ func (r *c02Run) randomOp() {
 	op := u.ops[rng.Intn(len(u.ops))]
 	if rng.Intn(11) == 0 {
 		r.assocCycle(st, op)
+		return
+	}
+	if rng.Intn(12) == 0 {
+		r.nstChange(st, as)
 		return
 	}
 	switch k := rng.Intn(100); {
@@ -765,7 +847,30 @@ func runC02(a *Args) error {
 		finish(r)
 	}
 
-	for c := 2; c < a.N; c++ {
+	// directed 3: the whole-position branch of ValidateUndelegationAmount (repair 56b99a6): a request equal to the
+	// reported position whose converted share exceeds the staker's share by rounding dust removes the whole share.
+	// Same skewed pool as directed 2 (so it also ends in the known rounding finding, tagged by record()).
+	{
+		r := newRun()
+		big1 := kernBig("4000000000000000001")
+		r.deposit(A, usdt, big1)
+		r.delegate(A, usdt, extraOp, big1)
+		r.deposit(B, usdt, big.NewInt(1))
+		r.delegate(B, usdt, extraOp, big.NewInt(1))
+		almost := c02One.Sub(sdkmath.LegacySmallestDec())
+		r.slash(extraOp, almost, almost)
+		t, _ := r.pool(extraOp, usdt)
+		if t.Cmp(big.NewInt(2)) > 0 && t.BitLen() < 60 {
+			lo := sdkmath.LegacyNewDecFromBigInt(kernAdd(t, -2)).QuoInt(sdkmath.NewIntFromBigInt(t)).Add(sdkmath.LegacySmallestDec())
+			hi := sdkmath.LegacyNewDecFromBigInt(kernAdd(t, -1)).QuoInt(sdkmath.NewIntFromBigInt(t)).Sub(sdkmath.LegacySmallestDec())
+			r.slash(extraOp, lo, hi)
+		}
+		r.undelegate(A, usdt, extraOp, kernAdd(r.position(A, usdt, extraOp), 1)) // one more than the position: rejected
+		r.undelegate(A, usdt, extraOp, r.position(A, usdt, extraOp))             // the position: whole share
+		finish(r)
+	}
+
+	for c := 3; c < a.N; c++ {
 		// the random stream reaches the two known defects only in cases that carry their tag: the short
 		// client-chain id (prefix scan) in every 8th case; the rounding defect is tagged where it is observed (record)
 		regime := rng.Intn(8)
